@@ -36,12 +36,13 @@ theorem bot_inv_tie (cfg : Conf) (hfix : cfg.fixed = true) (size : Nat) (secs : 
 /-- **The loop ends exactly when the server ends the game.**  Under well-formed traffic (`TraceOK`: the server
 announces only parsed moves that are legal in its own history, sends `Undo` only when there is something to
 undo, `Over` with a result, `Time` with two fields, `Tell` with a `<name>`; checking an AI answer does not panic)
-the loop has returned iff some delivered event was `Game#N Over …`, `Game#N Abandoned. …` or the close of the
+on a board of size 3..8 the loop has returned iff some delivered event was `Game#N Over …`, `Game#N Abandoned. …` or the close of the
 connection. -/
 theorem bot_ends_iff (cfg : Conf) (hfix : cfg.fixed = true) (size : Nat) (secs : Int) (evs : List Ev)
-    (hstart : (start cfg size secs).status = .running)
+    (hsize : 3 ≤ size ∧ size ≤ 8)
     (hok : TraceOK cfg (start cfg size secs) evs) :
     (run cfg (start cfg size secs) evs).status = .ended ↔ ∃ e ∈ evs, isEnd cfg e := by
+  have hstart := start_running cfg size secs hsize.1 hsize.2
   obtain ⟨h1, h2⟩ := run_status hfix (sinv_start cfg size secs) hstart evs hok
   constructor
   · intro he
@@ -53,9 +54,10 @@ theorem bot_ends_iff (cfg : Conf) (hfix : cfg.fixed = true) (size : Nat) (secs :
 
 /-- under the same hypotheses the protocol goroutine never panics -/
 theorem bot_no_panic (cfg : Conf) (hfix : cfg.fixed = true) (size : Nat) (secs : Int) (evs : List Ev)
-    (hstart : (start cfg size secs).status = .running)
+    (hsize : 3 ≤ size ∧ size ≤ 8)
     (hok : TraceOK cfg (start cfg size secs) evs) :
     ¬ (run cfg (start cfg size secs) evs).crashed := by
+  have hstart := start_running cfg size secs hsize.1 hsize.2
   obtain ⟨h1, h2⟩ := run_status hfix (sinv_start cfg size secs) hstart evs hok
   rintro ⟨e, he⟩
   by_cases hend : ∃ e ∈ evs, isEnd cfg e
@@ -165,17 +167,17 @@ example : holders (run (white true) (start (white true) 5 600) (playTrace.take 1
 /-- the hypotheses of `bot_ends_iff`/`bot_no_panic` hold of this run (sixteen events: moves, clock, undo traffic,
 chat, five thinkers, `Over`), and so do their conclusions -/
 example :
-    (start (white true) 5 600).status = .running ∧ TraceOK (white true) (start (white true) 5 600) playTrace ∧
+    TraceOK (white true) (start (white true) 5 600) playTrace ∧
     (∃ e ∈ playTrace, isEnd (white true) e) := by
   decide +kernel
 
 example : (run (white true) (start (white true) 5 600) playTrace).status = .ended :=
-  (bot_ends_iff (white true) rfl 5 600 playTrace (by decide +kernel) (by decide +kernel)).mpr (by decide +kernel)
+  (bot_ends_iff (white true) rfl 5 600 playTrace (by decide) (by decide +kernel)).mpr (by decide +kernel)
 
 /-- … and a run the server has not ended keeps going: the same schedule without its last line -/
 example : (run (white true) (start (white true) 5 600) playTrace.dropLast).status ≠ .ended := by
   intro h
-  have := (bot_ends_iff (white true) rfl 5 600 playTrace.dropLast (by decide +kernel) (by decide +kernel)).mp h
+  have := (bot_ends_iff (white true) rfl 5 600 playTrace.dropLast (by decide) (by decide +kernel)).mp h
   revert this
   decide +kernel
 
